@@ -1959,7 +1959,116 @@ fn stress_shared_threads(out: &mut Out, rounds: usize, seed: u64) {
     out.nontrivial();
 }
 
+// ---------------------------------------------------------------------------------------------
+// type probes (round 3, after seed C14-6): "no safe sequence of operations reads memory that has been released" has a
+// compile-time half that no run of the harness can see — every borrow the harness makes is `'static`. Each probe is a
+// small SAFE program that must be REFUSED by rustc (a borrowed value outliving what it borrows; a value with
+// thread-unsafe elements crossing threads); its control variant must compile. They are type-checked against the
+// `metrics` rlib this harness was linked with (same mechanism as C01's probes).
+
+struct TProbe {
+    name: &'static str,
+    body: &'static str,
+    control: &'static str,
+    codes: &'static [&'static str],
+    what: &'static str,
+}
+
+const TPROBES: &[TProbe] = &[
+    TProbe {
+        name: "from_borrowed(&local) returned as a 'static SharedString",
+        body: "pub fn f() -> metrics::SharedString { let local = String::from(\"request-42\"); metrics::SharedString::from_borrowed(local.as_str()) }",
+        control: "pub fn f(s: &'static str) -> metrics::SharedString { metrics::SharedString::from_borrowed(s) }",
+        codes: &["E0515", "E0597", "E0521", "E0716"],
+        what: "safe Rust accepts a 'static SharedString borrowed from a local String (from_borrowed no longer ties the value to the borrow): reading it after the String is freed reads released memory",
+    },
+    TProbe {
+        name: "const_str(&local) returned as a 'static SharedString",
+        body: "pub fn f() -> metrics::SharedString { let local = String::from(\"x\"); metrics::SharedString::const_str(local.as_str()) }",
+        control: "pub fn f(s: &'static str) -> metrics::SharedString { metrics::SharedString::const_str(s) }",
+        codes: &["E0515", "E0597", "E0521", "E0716"],
+        what: "safe Rust accepts a 'static SharedString made by const_str from a local String",
+    },
+    TProbe {
+        name: "borrowed str outlives its owner inside one function",
+        body: "pub fn f() -> usize { let c; { let local = String::from(\"abc\"); c = metrics::verif_cow::Cow::<str>::from_borrowed(local.as_str()); } c.len() }",
+        control: "pub fn f() -> usize { let local = String::from(\"abc\"); let c = metrics::verif_cow::Cow::<str>::from_borrowed(local.as_str()); c.len() }",
+        codes: &["E0597", "E0505"],
+        what: "safe Rust accepts reading a borrowed Cow<str> after the String it borrows from was dropped",
+    },
+    TProbe {
+        name: "const_slice(&local_vec) returned as a 'static label slice",
+        body: "pub fn f() -> metrics::verif_cow::Cow<'static, [metrics::Label]> { let v = vec![metrics::Label::new(\"a\", \"b\")]; metrics::verif_cow::Cow::const_slice(&v[..]) }",
+        control: "pub fn f(v: &'static [metrics::Label]) -> metrics::verif_cow::Cow<'static, [metrics::Label]> { metrics::verif_cow::Cow::const_slice(v) }",
+        codes: &["E0515", "E0597", "E0521", "E0716"],
+        what: "safe Rust accepts a 'static label slice borrowed from a local Vec (const_slice no longer ties the value to the borrow)",
+    },
+    TProbe {
+        name: "from_borrowed(&local_vec[..]) returned as a 'static label slice",
+        body: "pub fn f() -> metrics::verif_cow::Cow<'static, [metrics::Label]> { let v = vec![metrics::Label::new(\"a\", \"b\")]; metrics::verif_cow::Cow::from_borrowed(&v[..]) }",
+        control: "pub fn f(v: &'static [metrics::Label]) -> metrics::verif_cow::Cow<'static, [metrics::Label]> { metrics::verif_cow::Cow::from_borrowed(v) }",
+        codes: &["E0515", "E0597", "E0521", "E0716"],
+        what: "safe Rust accepts a 'static label slice borrowed from a local Vec (from_borrowed no longer ties the value to the borrow)",
+    },
+    TProbe {
+        name: "Key built from a borrowed local name",
+        body: "pub fn f() -> metrics::Key { let local = String::from(\"n\"); metrics::Key::from_name(metrics::SharedString::from_borrowed(local.as_str())) }",
+        control: "pub fn f() -> metrics::Key { let local = String::from(\"n\"); metrics::Key::from_name(metrics::SharedString::from_owned(local)) }",
+        codes: &["E0515", "E0597", "E0521", "E0716"],
+        what: "safe Rust accepts a Key whose name borrows a local String that is freed at the end of the function",
+    },
+    TProbe {
+        name: "slice of Rc sent to another thread",
+        body: "fn is_send<T: Send>() {} pub fn f() { is_send::<metrics::verif_cow::Cow<'static, [std::rc::Rc<u8>]>>() }",
+        control: "fn is_send<T: Send>() {} pub fn f() { is_send::<metrics::verif_cow::Cow<'static, [u8]>>(); is_send::<metrics::SharedString>() }",
+        codes: &["E0277"],
+        what: "Cow<[Rc<u8>]> is Send: dropping it on another thread races the non-atomic reference counts of its elements",
+    },
+    TProbe {
+        name: "slice of Cell shared between threads",
+        body: "fn is_sync<T: Sync>() {} pub fn f() { is_sync::<metrics::verif_cow::Cow<'static, [std::cell::Cell<u8>]>>() }",
+        control: "fn is_sync<T: Sync>() {} pub fn f() { is_sync::<metrics::verif_cow::Cow<'static, [u8]>>(); is_sync::<metrics::SharedString>() }",
+        codes: &["E0277"],
+        what: "Cow<[Cell<u8>]> is Sync: two threads can write its elements without synchronisation through a shared reference",
+    },
+];
+
+fn type_probes(out: &mut Out) {
+    let dir = out.dir.join("probes");
+    std::fs::create_dir_all(&dir).expect("probe dir");
+    let results: Vec<(Result<(), String>, Result<(), String>)> = std::thread::scope(|s| {
+        let hs: Vec<_> = TPROBES
+            .iter()
+            .enumerate()
+            .map(|(i, p)| {
+                let dir = dir.clone();
+                s.spawn(move || {
+                    let pre = "#![allow(dead_code, unused_variables)]\n";
+                    let c = crate::c01::rustc_check(&dir, &format!("c14probe{}_control", i), &format!("{}{}\n", pre, p.control));
+                    let b = crate::c01::rustc_check(&dir, &format!("c14probe{}", i), &format!("{}{}\n", pre, p.body));
+                    (c, b)
+                })
+            })
+            .collect();
+        hs.into_iter().map(|h| h.join().expect("probe thread")).collect()
+    });
+    for (p, (control, body)) in TPROBES.iter().zip(results) {
+        out.case(&format!("type probe: {}", p.name));
+        out.count("type_probe");
+        out.nontrivial();
+        if let Err(e) = &control {
+            panic!("type probe `{}`: the LEGAL control program does not compile — harness/toolchain problem:\n{}", p.name, e);
+        }
+        match &body {
+            Ok(()) => out.oracle_fail(p.what, &format!("rustc accepts: {}", p.body)),
+            Err(e) if p.codes.iter().any(|c| e.contains(&format!("[{}]", c))) => out.count("type_probe.rejected"),
+            Err(e) => panic!("type probe `{}`: rustc refused the program for an unexpected reason (expected one of {:?}):\n{}", p.name, p.codes, e),
+        }
+    }
+}
+
 pub fn run(cfg: &Cfg, out: &mut Out) {
+    type_probes(out);
     not_auto::assert_bounds();
     alloc::install();
     out.case("stream D: into_owned racing Weak::upgrade (stress)");
